@@ -72,7 +72,12 @@ def generate(rng, tier, index):
         plan["cli_image"] = rng.randrange(len(wp["images"]))
         plan["at"] = rng.choice([{"abs": 0}, {"abs": 1}, {"fromend": 1}, {"fromend": 0},
                                  "close", {"frac": rng.random()}, {"frac": rng.random()},
-                                 {"struct": rng.random()}])
+                                 {"struct": rng.random()},
+                                 {"event": rng.randrange(0, 8)}, {"event": rng.randrange(0, 40)}])
+        if "event" in plan["at"]:
+            # crash just before the n-th disk-mutating operation of the writer (mkdir, open, each
+            # write chunk, close, rename, unlink, ...) - whatever protocol the writer follows
+            plan["chunk"] = rng.choice([64, 512, 4096, 1 << 30])
         plan["preexisting"] = rng.choice(["none", "none", "complete"])
         return plan
     plan["sched_seed"] = rng.randrange(2**31)
@@ -129,8 +134,8 @@ def resolve_k(spec, doc):
 
 
 def k_class(k, n):
-    if k == "close":
-        return "close"
+    if k in ("close", "event"):
+        return k
     if k == 0:
         return "0"
     if k >= n:
@@ -300,9 +305,15 @@ def run_s1_s2(c, ref):
     else:
         img = sorted(docs)[plan["nth"] % len(docs)]
         match, nth = "xdg/", plan["nth"]
-    k = resolve_k(plan["at"], docs[img])
-    SIM.write_plan = {"kind": "kill" if scen == "S1" else "enospc", "actor": "W",
-                      "match": match, "nth": nth, "at": k}
+    if isinstance(plan["at"], dict) and "event" in plan["at"]:
+        k = "event"
+        SIM.write_plan = {"kind": "kill" if scen == "S1" else "enospc", "actor": "W",
+                          "at_event": plan["at"]["event"]}
+        SIM.write_chunk = plan.get("chunk", 1 << 30)
+    else:
+        k = resolve_k(plan["at"], docs[img])
+        SIM.write_plan = {"kind": "kill" if scen == "S1" else "enospc", "actor": "W",
+                          "match": match, "nth": nth, "at": k}
     SIM.actor = "W"
     outcome = "completed"
     try:
@@ -319,16 +330,23 @@ def run_s1_s2(c, ref):
     finally:
         SIM.actor = "main"
         fired = bool(SIM.write_plan.get("fired"))
+        fired_at = SIM.write_plan.get("fired_at")
         SIM.write_plan = None
+        SIM.write_chunk = 1 << 30
+    if fired_at:
+        c.bump("crash-before:" + fired_at[0])
     c.bump("writer-" + outcome)
     c.bump("fault-fired" if fired else "fault-not-reached")
     if scen == "S1":
         world.restart()          # the killed process is gone; survivors see only files
     c.evaluations += 1
     where = f"{scen}:{writer}"
-    c.keys.append(f"{scen}|{writer}|{k_class(k, len(docs[img]))}|{c.prod.level}|{c.kind}|"
+    kc = k_class(k, len(docs[img])) + (":" + fired_at[0] if fired_at and k == "event" else "")
+    c.keys.append(f"{scen}|{writer}|{kc}|{c.prod.level}|{c.kind}|"
                   f"{plan.get('preexisting')}|{outcome.split(':')[0]}")
     ctx = {"k": k, "doc_len": len(docs[img]), "writer_outcome": outcome}
+    if fired_at:
+        ctx["crash_before"] = fired_at
     if c.default_open_ok(ref, where, **ctx):
         c.repair_ok(ref, where, **ctx)
 
